@@ -34,6 +34,39 @@ def conn_scenario(rng, origin="random-conn", edits=None):
     return s
 
 
+def multi_rx_scenario(rng):
+    """4-5 channels, several receivers with DIFFERENT source sets, every source firing at its own frames inside the same
+    block (what one receiver gets must not depend on what another receiver gets)."""
+    nchan = rng.choice([4, 5])
+    npre, nsamp = 4, rng.choice([10, 16])
+    nblocks = rng.choice([1, 2, 3])
+    blen = rng.choice([6, 9]) * nsamp
+    total = nblocks * blen
+    data = []
+    for c in range(nchan):
+        xs = [1000 + 50 * c] * total
+        # pulses (steps up, decaying) at channel-specific positions, at least 2 record lengths apart
+        pos = rng.randrange(npre + 2, 3 * nsamp)
+        while pos < total - nsamp:
+            for i in range(pos, min(total, pos + nsamp)):
+                xs[i] += int(400 * 0.8 ** (i - pos))
+            pos += rng.randrange(2 * nsamp + 3, 4 * nsamp)
+        data.append(xs)
+    t = sc.edge_trig(level=150)
+    steps = [{"k": "trig", "chans": list(range(nchan)), "t": t}]
+    pairs = set()
+    while len(pairs) < rng.choice([2, 3, 4]):
+        a, b = rng.randrange(nchan), rng.randrange(nchan)
+        if a != b:
+            pairs.add((a, b))
+    for a, b in sorted(pairs):
+        steps.append({"k": "conn", "op": "add", "s": a, "r": b})
+    for _ in range(nblocks):
+        steps.append({"k": "block", "n": blen})
+    return {"origin": "multi-receiver", "nchan": nchan, "npre": npre, "nsamp": nsamp, "signed": False, "period": 1000, "frame0": rng.choice([0, 1 << 33]),
+            "start": "fresh", "trig": [t] * nchan, "steps": steps, "data": data, "oneblock": False}
+
+
 def run(ctx):
     q = ctx.quick()
     r = vlib.run_tlc(ctx, "Broker", "BrokerMC.cfg", workers=16)
@@ -49,12 +82,15 @@ def run(ctx):
         ctx.notes["as_code_counterexample"] = acts
     n = 200 if q else 3000
     scens += [conn_scenario(rng) for _ in range(n)]
+    nm = 40 if q else 600
+    scens += [multi_rx_scenario(rng) for _ in range(nm)]
+    ctx.notes["scenarios_multi_receiver"] = nm
     ctx.notes["scenarios_random"] = n
     events, _ = sc.validate(ctx, scens, PREFIXES)
     ctx.notes["connection_requests"] = sum(1 for e in events if e["ev"] == "Conn")
     ctx.notes["cycles_with_connections"] = sum(1 for e in events if e["ev"] == "Cycle")
     return vlib.finish(ctx, LEVEL, RULE,
-                       ["error/feedback coupling requests (Lancero only) are exercised by the C04 driver", "2-3 channels"])
+                       ["error/feedback coupling requests (Lancero only) are exercised by the C04 driver", "2-5 channels"])
 
 
 def replay(ctx, path):
